@@ -18,6 +18,7 @@ import (
 	tmbytes "github.com/cometbft/cometbft/libs/bytes"
 	sdk "github.com/cosmos/cosmos-sdk/types"
 
+	service "mods.irisnet.org/modules/service"
 	servicetypes "mods.irisnet.org/modules/service/types"
 
 	"verifharness/chain"
@@ -211,14 +212,24 @@ func (s *Svc) KeeperTx(fn func(ctx sdk.Context) error) (r chain.Result) {
 
 // Define a service.
 func (s *Svc) Define(author sdk.AccAddress, name string) chain.Result {
-	return s.C.Deliver(&servicetypes.MsgDefineService{Name: name, Description: "d", Author: author.String(),
-		AuthorDescription: "a", Schemas: SvcSchemas})
+	return s.DefineWith(author, name, "d", "a", nil)
+}
+
+// DefineWith defines a service with the optional fields chosen by the caller.
+func (s *Svc) DefineWith(author sdk.AccAddress, name, description, authorDescription string, tags []string) chain.Result {
+	return s.C.Deliver(&servicetypes.MsgDefineService{Name: name, Description: description, Tags: tags, Author: author.String(),
+		AuthorDescription: authorDescription, Schemas: SvcSchemas})
 }
 
 // Bind provider to a service.
 func (s *Svc) Bind(owner, provider sdk.AccAddress, svc string, deposit sdk.Coins, pricing string, qos uint64) chain.Result {
+	return s.BindWith(owner, provider, svc, deposit, pricing, qos, "{}")
+}
+
+// BindWith binds with an explicit options document.
+func (s *Svc) BindWith(owner, provider sdk.AccAddress, svc string, deposit sdk.Coins, pricing string, qos uint64, options string) chain.Result {
 	return s.C.Deliver(&servicetypes.MsgBindService{ServiceName: svc, Provider: provider.String(), Deposit: deposit,
-		Pricing: pricing, QoS: qos, Options: "{}", Owner: owner.String()})
+		Pricing: pricing, QoS: qos, Options: options, Owner: owner.String()})
 }
 
 // UpdateBinding changes deposit (added), pricing ("" = keep), QoS (0 = keep) and options ("" = keep).
@@ -382,6 +393,51 @@ func (s *Svc) Params() servicetypes.Params { return s.k().K.Service.GetParams(s.
 // NextBlock ends the current block and begins the next one dt later.
 func (s *Svc) NextBlock(dt time.Duration) (end, begin chain.HookResult) {
 	return s.C.NextBlock(dt, nil)
+}
+
+// ---------------------------------------------------------------------------------------------
+// restarts
+
+// GenesisPrefixes are the store prefixes whose content the service genesis carries (parameters, definitions,
+// bindings with their owner / pricing indexes, withdraw addresses, request contexts). Requests, responses, queues,
+// request volumes and earned fees are not exported.
+var GenesisPrefixes = [][]byte{
+	servicetypes.ParamsKey, servicetypes.ServiceDefinitionKey, servicetypes.ServiceBindingKey, servicetypes.OwnerServiceBindingKey,
+	servicetypes.OwnerKey, servicetypes.OwnerProviderKey, servicetypes.PricingKey, servicetypes.WithdrawAddrKey, servicetypes.RequestContextKey,
+}
+
+// AsIsAdmissible tells whether the module's genesis validation accepts an as-is export of the current state:
+// every stored request context must be PAUSED with a COMPLETED batch (anything else is known finding F9e).
+func (s *Svc) AsIsAdmissible() bool {
+	ok := true
+	s.k().K.Service.IterateRequestContexts(s.C.Ctx, func(_ tmbytes.HexBytes, rc servicetypes.RequestContext) bool {
+		if rc.State != servicetypes.PAUSED || rc.BatchState != servicetypes.BATCHCOMPLETED {
+			ok = false
+		}
+		return !ok
+	})
+	return ok
+}
+
+// ReimportAsIs exports the genesis as it is, wipes exactly the prefixes the genesis carries and imports it again.
+func (s *Svc) ReimportAsIs() (stage string, err error) {
+	_, stage, err = s.C.Reimport(servicetypes.ModuleName, GenesisPrefixes...)
+	return
+}
+
+// PrepZeroHeight runs the module's zero-height preparation (refund of the fees of active requests, pay-out of
+// earned fees, reset of every context to PAUSED / batch COMPLETED) as one atomic step.
+func (s *Svc) PrepZeroHeight() chain.Result {
+	return s.KeeperTx(func(ctx sdk.Context) error {
+		service.PrepForZeroHeightGenesis(ctx, s.k().K.Service)
+		return nil
+	})
+}
+
+// ReimportZeroHeight is the second half of a real restart: export, wipe the whole store, import.
+func (s *Svc) ReimportZeroHeight() (stage string, err error) {
+	_, stage, err = s.C.Reimport(servicetypes.ModuleName)
+	return
 }
 
 // ---------------------------------------------------------------------------------------------
